@@ -994,7 +994,7 @@ impl TypeChecker {
                 no_ret(f_ty)
             }
 
-            E::Blob { blob, fields, span, .. } => {
+            E::Blob { blob, fields, span, self_var } => {
                 let blob_ty = self.copy(self.variables[*blob].ty);
                 let (blob_name, blob_fields, blob_args) = match self.find_type(blob_ty) {
                     Type::Blob(name, _, fields, args) => (name, fields, args),
@@ -1072,7 +1072,11 @@ impl TypeChecker {
                     self.unify(expr.span(), ctx, expr_ty, fields_and_types[key].1)?;
                 }
 
-                with_ret(ret, self.unify(*span, ctx, given_blob, blob_ty)?)
+                let blob_ty = self.unify(*span, ctx, given_blob, blob_ty)?;
+                // `self` in the methods is the blob being built.
+                let self_ty = self.variables[*self_var].ty;
+                self.unify(*span, ctx, self_ty, blob_ty)?;
+                with_ret(ret, blob_ty)
             }
 
             E::Collection { collection: Collection::Tuple, values, span } => {
